@@ -369,6 +369,52 @@ example : gram (fun _ => false) .server [97, 58, 54, 53, 53, 51, 53] = true
     ∧ hasBigPort (fun _ => false) .server [97, 58, 54, 53, 53, 51, 53] = false := by
   decide +kernel
 
+/-- The exclusion of `grammar_implies_accept_partial` is exact: an identifier whose server name
+carries a port above 65535 is rejected (for every behaviour of the external code). Together: an
+identifier of the recommended grammar is accepted if and only if it has no such port. -/
+theorem big_port_rejected (x : Ext) (k : Kind) (s : Str) (h : utf8Valid s = true)
+    (hb : hasBigPort x.isIpv6 k s = true) : validate x k s ≠ .ok () := by
+  have hs := sep_of_utf8Valid s h
+  intro hv
+  cases k <;> simp only [hasBigPort] at hb <;> simp only [validate] at hv
+  · obtain ⟨lp, srv, hd, _⟩ := (delimitedValidate_ok_iff hs (by omega) (by omega)).1 hv
+    rw [delimOk_not_bigPort hd] at hb; cases hb
+  · cases hb
+  · obtain ⟨lp, srv, hd, _⟩ := (delimitedValidate_ok_iff hs (by omega) (by omega)).1 hv
+    rw [delimOk_not_bigPort hd] at hb; cases hb
+  · unfold roomOrAliasIdValidate at hv
+    split at hv
+    · obtain ⟨lp, srv, hd, _⟩ := (delimitedValidate_ok_iff hs (by omega) (by omega)).1 hv
+      rw [delimOk_not_bigPort hd] at hb; cases hb
+    · rename_i hh
+      obtain ⟨l, t, rfl, _⟩ := delimited_iff.1 hb
+      simp at hh
+    · simp at hv
+  · rcases (eventIdValidate_ok_iff hs).1 hv with ⟨lp, srv, hd⟩ | ⟨hc, _, _⟩
+    · rw [delimOk_not_bigPort hd] at hb; cases hb
+    · obtain ⟨l, t, rfl, _⟩ := delimited_iff.1 hb
+      exact hc (by simp)
+  · rw [serverOk_not_bigPort ((serverNameValidate_ok_iff hs).1 hv)] at hb; cases hb
+  all_goals first
+    | cases hb
+    | (cases hm : mxcValidate x s with
+       | err => simp [hm, Res.void] at hv
+       | panic => simp [hm, Res.void] at hv
+       | ok idx =>
+         obtain ⟨srv, media, hok, _⟩ := (mxcValidate_ok_iff hs).1 hm
+         rw [mxcOk_not_bigPort_of (fun A hA => gramHost_no_slash hA) hok] at hb; cases hb)
+
+/-- For identifiers of the recommended grammar: accepted ⇔ no port above 65535. -/
+theorem grammar_accept_iff (x : Ext) (k : Kind) (s : Str) (h : utf8Valid s = true)
+    (hg : gram x.isIpv6 k s = true) :
+    validate x k s = .ok () ↔ hasBigPort x.isIpv6 k s = false := by
+  constructor
+  · intro hv
+    cases hb : hasBigPort x.isIpv6 k s with
+    | false => rfl
+    | true => exact absurd hv (big_port_rejected x k s h hb)
+  · exact grammar_implies_accept_partial x k s h hg
+
 /-- An identifier in the recommended user ID grammar also passes `validate_strict`. -/
 theorem grammar_implies_strict (x : Ext) (s : Str) (h : utf8Valid s = true)
     (hg : gram x.isIpv6 .user s = true) (hp : hasBigPort x.isIpv6 .user s = false) :
@@ -835,6 +881,8 @@ example : struct ipv6Ref .user (bs "@a:[::1]:80") = true
 #print axioms length_limit
 #print axioms grammar_implies_accept_partial
 #print axioms grammar_not_always_accepted
+#print axioms big_port_rejected
+#print axioms grammar_accept_iff
 #print axioms grammar_implies_strict
 #print axioms constructor_accepted_parse_with_server_name
 #print axioms parse_with_server_name_total
